@@ -1697,6 +1697,72 @@ def gen_bind(repo):
     return "\n".join(L)
 
 
+# --------------------------------------------------------------------------- exhaustion clamp
+
+def gen_clamp(repo):
+    """calc_final_kinetic_reaction: 'if (Get_moles() > A[i]) { Set_moles(B[i]); Set_m(C); }'  - which arrays A, B; and in
+    rk_kinetics which array the new amount is computed from (Set_m(X[j] - Get_moles())) and which array is refreshed with
+    Get_m() at the start of every sub-step attempt."""
+    objs, src = ast_dump(repo, "src/phreeqcpp/kinetics.cpp", "calc_final_kinetic_reaction")
+    fn = definition(objs, "calc_final_kinetic_reaction")
+
+    def arr_name(n):
+        n = strip(n)
+        if n["kind"] == "CXXOperatorCallExpr" and len(kids(n)) == 3 and strip(kids(n)[0]).get("referencedDecl", {}).get("name") == "operator[]":
+            b = strip(kids(n)[1])
+            if b["kind"] == "MemberExpr":
+                return b["name"]
+        if n["kind"] == "ArraySubscriptExpr":
+            b = strip(kids(n)[0])
+            if b["kind"] == "MemberExpr":
+                return b["name"]
+        return None
+    found = []
+    for st in find_all(fn, lambda x: x["kind"] == "IfStmt"):
+        c = strip(kids(st)[0])
+        if c["kind"] == "BinaryOperator" and c.get("opcode") == ">":
+            nm, args, _ = member_call_name(kids(c)[0])
+            a = arr_name(kids(c)[1])
+            if nm == "Get_moles" and a:
+                sets = [x for x in find_all(kids(st)[1], lambda y: y["kind"] == "CXXMemberCallExpr" and kids(y)[0].get("name") in ("Set_moles", "Set_m"))]
+                sm = [arr_name(kids(x)[1]) for x in sets if kids(x)[0]["name"] == "Set_moles"]
+                sz = [strip(kids(x)[1]) for x in sets if kids(x)[0]["name"] == "Set_m"]
+                if len(sm) != 1 or len(sz) != 1 or sz[0]["kind"] not in ("IntegerLiteral", "FloatingLiteral"):
+                    raise Refuse("calc_final_kinetic_reaction: exhaustion clamp has an unexpected body")
+                found.append((a, sm[0], literal(sz[0], src)))
+    if len(found) != 1:
+        raise Refuse("calc_final_kinetic_reaction: expected exactly one exhaustion clamp, found %d" % len(found))
+    objs2, src2 = ast_dump(repo, "src/phreeqcpp/kinetics.cpp", "rk_kinetics")
+    fn2 = definition(objs2, "rk_kinetics")
+    bases = []
+    for c in find_all(fn2, lambda y: y["kind"] == "CXXMemberCallExpr" and kids(y)[0].get("name") == "Set_m"):
+        a = strip(kids(c)[1])
+        if a["kind"] == "BinaryOperator" and a.get("opcode") == "-":
+            nm, _, _ = member_call_name(kids(a)[1])
+            b = arr_name(kids(a)[0])
+            if nm == "Get_moles" and b:
+                if b not in bases:
+                    bases.append(b)
+            else:
+                raise Refuse("rk_kinetics: Set_m argument is not <array>[j] - Get_moles()")
+    snaps = []
+    for a in find_all(fn2, lambda x: x["kind"] == "BinaryOperator" and x.get("opcode") == "="):
+        l = arr_name(kids(a)[0])
+        nm, _, _ = member_call_name(kids(a)[1])
+        if l and nm == "Get_m" and l not in snaps:
+            snaps.append(l)
+    L = ["(* GENERATED by translator/c12_gen.py from src/phreeqcpp/kinetics.cpp : calc_final_kinetic_reaction / rk_kinetics.  Do not edit. *)",
+         "Require Import String List QArith.", "Import ListNotations.", "Open Scope string_scope.", "",
+         "(* if (Get_moles() > g_clamp_cmp[i]) { Set_moles(g_clamp_set[i]); Set_m(g_clamp_m); } *)",
+         'Definition g_clamp_cmp : string := "%s".' % found[0][0],
+         'Definition g_clamp_set : string := "%s".' % found[0][1],
+         "Definition g_clamp_m : Q := %s." % qlit(found[0][2]),
+         "(* rk_kinetics: Set_m(<base>[j] - Get_moles()) ; <snapshot>[j] = Get_m() at the start of a sub-step attempt *)",
+         "Definition g_update_bases : list string := [%s]." % "; ".join('"%s"' % b for b in bases),
+         "Definition g_substep_snapshots : list string := [%s]." % "; ".join('"%s"' % b for b in snaps), ""]
+    return "\n".join(L)
+
+
 def main():
     repo = sys.argv[1] if len(sys.argv) > 1 else "/repo"
     outd = sys.argv[2] if len(sys.argv) > 2 else None
@@ -1705,10 +1771,13 @@ def main():
     r = gen_restart(repo)
     tt = gen_transport_time(repo)
     bb = gen_bind(repo)
+    cc = gen_clamp(repo)
     if outd:
         open(os.path.join(outd, "Gen_C12_Bind.v"), "w").write(bb)
+        open(os.path.join(outd, "Gen_C12_Clamp.v"), "w").write(cc)
     else:
         sys.stdout.write(bb)
+        sys.stdout.write(cc)
     if outd:
         open(os.path.join(outd, "Gen_C12_Restart.v"), "w").write(r)
         open(os.path.join(outd, "Gen_C12_Transport.v"), "w").write(tt)
